@@ -65,6 +65,7 @@ type GenOpts struct {
 	Whiteouts  bool // allow .wh. entries and opaque markers (C07)
 	OddNames   bool // names with bytes that sort around "." and "..", spaces, non-ASCII
 	BigFiles   bool // also files of many chunks, and device numbers beyond 8 bits
+	Dups       bool // duplicate names (a later entry replaces an earlier one) and the name prefixes "/" and "../"
 }
 
 func fileData(seed uint64, n int) []byte {
@@ -201,6 +202,44 @@ func GenTar(d Draw, seed uint64, o GenOpts) *TarSpec {
 			}
 		}
 		ts.Entries = append(ts.Entries, e)
+	}
+	if o.Dups {
+		if x := d(4); x >= 2 {
+			ts.Prefix = []string{"/", "../"}[x-2]
+		}
+		// a later entry of the same name replaces the earlier one (never a hard link's target: an
+		// extracted link keeps the old inode, an index by name cannot)
+		linked := map[string]bool{}
+		for _, e := range ts.Entries {
+			if e.Type == tar.TypeLink {
+				linked[e.Link] = true
+			}
+		}
+		for k, nd := 0, d(3); k < nd && len(ts.Entries) > 0; k++ {
+			old := ts.Entries[d(len(ts.Entries))]
+			if linked[old.Name] || (old.Type != tar.TypeReg && old.Type != tar.TypeDir) {
+				continue
+			}
+			e := Entry{Name: old.Name, Type: old.Type, Mode: []int64{0640, 0711, 0400}[d(3)], UID: old.GID, GID: old.UID, MTime: 1_600_000_777}
+			if e.Type == tar.TypeReg {
+				e.Data = fileData(seed+uint64(1000+k)*977, sizes[d(len(sizes))])
+				// or the name comes back as a hard link to a file listed after its first occurrence
+				// (the position of the replacement matters: a link must follow its target)
+				if d(2) == 0 {
+					seen := false
+					for _, c := range ts.Entries {
+						if c.Name == old.Name {
+							seen = true
+						} else if seen && c.Type == tar.TypeReg && !linked[c.Name] {
+							e.Type, e.Link, e.Data = tar.TypeLink, c.Name, nil
+							linked[c.Name] = true
+							break
+						}
+					}
+				}
+			}
+			ts.Entries = append(ts.Entries, e)
+		}
 	}
 	if o.Whiteouts {
 		// OCI whiteouts (.wh.X), opaque markers, and user files named like landmarks in sub-directories
